@@ -26,9 +26,17 @@ def _simple_body(g):
     if isinstance(body[-1], ast.Return):
         ret = body[-1]
         body = body[:-1]
-    for s in body:
-        if not isinstance(s, (ast.Assign, ast.AugAssign, ast.Expr)):
-            return None
+    def plain(stmts):
+        # simple statements and if/else blocks of simple statements (no return inside: the single exit is the final return)
+        for s in stmts:
+            if isinstance(s, ast.If):
+                if not plain(s.body) or not plain(s.orelse):
+                    return False
+            elif not isinstance(s, (ast.Assign, ast.AugAssign, ast.Expr, ast.Pass)):
+                return False
+        return True
+    if not plain(body):
+        return None
     for s in body + ([ret] if ret is not None else []):
         for x in ast.walk(s):
             if isinstance(x, (ast.Yield, ast.YieldFrom, ast.Await, ast.Lambda, ast.FunctionDef, ast.ClassDef, ast.NamedExpr, ast.ListComp, ast.SetComp,
@@ -101,8 +109,8 @@ def inlined_view(ctx, fn, max_inlines=8):
                 val = copy.deepcopy(g.defaults[p])
             else:
                 return None
-            if isinstance(val, ast.Name) and p not in stored and (val.id in fn.params and val.id not in caller_stored):
-                mapping[p] = val.id          # an unmodified parameter of the caller passed on as an unmodified parameter: the same object
+            if isinstance(val, ast.Name) and p not in stored:
+                mapping[p] = val.id          # a plain name handed to a parameter the helper never re-binds: the same object throughout the inlined body
                 continue
             mapping[p] = tag + p
             pre.append(ast.copy_location(ast.Assign(targets=[ast.Name(id=tag + p, ctx=ast.Store())], value=val), at))
@@ -121,11 +129,19 @@ def inlined_view(ctx, fn, max_inlines=8):
             for x in ast.walk(s2):
                 ast.copy_location(x, at)
             out.append(s2)
+        # all inlined statements carry the line of the call (for reports); their order is kept in col_offset
+        for k_, s2 in enumerate(out):
+            for x in ast.walk(s2):
+                if hasattr(x, 'col_offset'):
+                    x.col_offset = getattr(at, 'col_offset', 0) + k_
+        order_base = getattr(at, 'col_offset', 0) + len(out)
         res = None
         if ret is not None and ret.value is not None:
             res = _Rename(mapping).visit(copy.deepcopy(ret.value))
             for x in ast.walk(res):
                 ast.copy_location(x, at)
+                if hasattr(x, 'col_offset'):
+                    x.col_offset = order_base
         elif ret is None or ret.value is None:
             res = ast.copy_location(ast.Constant(value=None), at)
         if direct is not None:
